@@ -7,6 +7,8 @@
 (*   V   the value pool, each value as the harness encodes it               *)
 (*   co  co[i][k]  = encoding of  U[i].coerced(V[k])                        *)
 (*   co2 co2[i][k] = encoding of  U[i].coerced(U[i].coerced(V[k]))          *)
+(*   inv_pos / inv_named [i][k] = value of {f: function(x: U[i]) x, r: f(V[k])}.r *)
+(*                         resp. f(x: V[k])  (parameter coercion at invocation)  *)
 (* The laws of the property are evaluated on eq / cf themselves; the        *)
 (* variance clauses are equalities between entries of cf; pointwise, eq and *)
 (* cf are compared with Equiv / Conforms of FeelType.tla (DMN 10.3.2.9);    *)
@@ -63,6 +65,9 @@ CoercionLaws ==
     IN
     /\ (got = want.v) \/ Fail("coercion-" \o want.how, i, 0, k)
     /\ (Obs.co2[i][k] = got) \/ Fail("coercion-idempotent", i, 0, k)
+    \* the same rule where the evaluator applies it: the parameter of function(x: T) x, invoked f(v) and f(x: v)
+    /\ (Obs.inv_pos[i][k].k = "unparsable" \/ Obs.inv_pos[i][k] = want.v) \/ Fail("invocation-positional-" \o want.how, i, 0, k)
+    /\ (Obs.inv_named[i][k].k = "unparsable" \/ Obs.inv_named[i][k] = want.v) \/ Fail("invocation-named-" \o want.how, i, 0, k)
 
 VARIABLE st
 Init == st = 0
